@@ -3,6 +3,7 @@
 EXTENDS Oid4vci, Json
 
 SubjW  == <<"W">>
+SubjA  == <<"A">>
 SubjWA == <<"W", "A">>
 SubjWW == <<"W", "W">>
 SubjAW == <<"A", "W">>
@@ -10,6 +11,7 @@ SubjWAW == <<"W", "A", "W">>
 
 NoneOff   == {{}}
 SingleOff == {{c} : c \in AllChecks}          \* every model that lacks exactly one check of the code
+RogueOff  == {{"mdid"}, {"aud"}}                  \* the two checks that stop a relay through the rogue issuer
 
 WDone == wruns = MaxWRuns \/ ~(\E o \in offers : o.to = "W" /\ (Replay \/ o \notin handled))
 AllDone == Quiet /\ nflows = MaxOffers /\ asteps = MaxAtt /\ WDone
